@@ -24,6 +24,9 @@ for sid in sorted(os.listdir(os.path.join(VERIF, "seeded"))):
     try:
         ap = subprocess.run(["git", "-C", wt, "apply", os.path.join(d, "patch.diff")], capture_output=True, text=True)
         if ap.returncode:
+            # later fix: commits may have touched neighbouring lines: try a 3-way merge of the seeded change
+            ap = subprocess.run(["git", "-C", wt, "apply", "-3", os.path.join(d, "patch.diff")], capture_output=True, text=True)
+        if ap.returncode:
             print(sid, "patch does not apply:", ap.stderr[:200])
             continue
         env = dict(os.environ, VERIF_EVIDENCE_DIR="/tmp/ev_seeded", VERIF_REPO=wt)
